@@ -245,7 +245,10 @@ impl Normalizer for Sequence {
         for normalizer in &self.normalizers {
             let (next_normalized, mut next_offsets) = normalizer.normalize(&normalized)?;
             for offset in next_offsets.iter_mut() {
-                *offset = offsets[*offset];
+                // A normalizer may report an offset equal to the length of
+                // its input (eg. text inserted at the end). That maps to the
+                // end of the original text.
+                *offset = offsets.get(*offset).copied().unwrap_or(text.len());
             }
             normalized = next_normalized;
             offsets = next_offsets;
